@@ -438,6 +438,9 @@ def evaluate_math_ns(it, cpp_line, n_line, stats):
         lib = c14_docs.stored_math_raw(stored[key])
         if any(p.startswith("!1x ") for p in preds):
             problems.append(("violation", "model instance of C14_stored_math_no_1x_declaration fails", {}))
+        if any("!tree " in p[:12] for p in preds) and not c14_docs.cellml_prefix_foreign(it["text"]):
+            problems.append(("violation", "the declaration layer (MathNsDefs.stored_math) and the tree layer (Load1xDefs.rewrite_math) disagree on a math element in scope", {}))
+        preds = [p.replace("!tree ", "", 1) if p.startswith("!tree ") else p for p in preds]
         if lib != preds:
             problems.append(("violation", "stored math (qualified names, xmlns declarations, attributes) differs from MathNsDefs.stored_math",
                              {"component": cname, "library": stored[key].decode("utf-8", "replace")[:2000], "library_raw": lib, "model_raw": preds}))
